@@ -83,13 +83,13 @@ PROPS = {
         'Trusted: the reference model (sim-independent, ~100 lines) and the ledger. This is the fault-free control configuration of the C09 harness; no scheduler or fault is involved because the property has none.',
         'Each evaluation is one seeded history of 8-40 operations on a CallbackList<void(int, Payload)> (SingleThreading, MultipleThreading, or a comparable custom Callback type for hasListener/removeListener). '
         'Non-trivial = the history contains at least one invocation; distinct = distinct plan hashes.'),
-    'C02': seq_prop('seq_list', [st('c02', 'seq_list', 'c02', 300000, 6000000)],
+    'C02': seq_prop('seq_list', [st('c02', 'seq_list', 'c02', 600000, 6000000)],
         'seeded re-entrant programs (callbacks carry scripts) executed in lockstep with a snapshot-semantics model; SimMutex / SpinLock one-task variants turn self-deadlock into a deterministic violation; ASan + ledger',
         'Seeded search over programs in which callbacks, to nesting depth 4, append/prepend/insert/remove (themselves and others)/enumerate/re-invoke the list being invoked and other lists of the same dispatcher. Every callback the real code runs is compared, at the moment it runs, with what snapshot semantics predicts; results of operations through removed handles are checked at every depth; content is compared after the outermost invocation; lists are drained.',
         'Trusted: the snapshot-semantics model, the ledger, the watchdog for real hangs. Policies: SingleThreading, MultipleThreading, real SpinLock, and SimMutex/SpinLock inside one simulated task.',
         'Each evaluation is one seeded program: a history of 8-40 top-level operations whose added callbacks carry scripts (1-3 operations each, nested scripts allowed, global fuel 6-30) on CallbackList or EventDispatcher under one of 9 policy variants. '
         'Non-trivial = at least one added callback carries a script; distinct = distinct plan hashes.'),
-    'C12': seq_prop('seq_filter', [st('c12', 'seq_filter', 'c12', 300000, 6000000)],
+    'C12': seq_prop('seq_filter', [st('c12', 'seq_filter', 'c12', 1000000, 8000000)],
         'seeded filter / listener / dispatch histories (direct and queued) in lockstep with a dispatcher-with-filters model; harness mixins before and after MixinFilter record their position; canContinueInvoking, conditionalFunctor and argumentAdapter variants',
         'Seeded search over histories of appendFilter / removeFilter (also from inside a filter), listener changes and dispatches - direct, and performed by EventQueue::process - with by-value and by-reference prototype parameters, arguments as lvalues and temporaries. Every filter call is checked when it happens: it must be the next filter in order of addition that is still attached, see the arguments as modified by the earlier filters, and no filter or listener may run after a filter returned false; listeners must see the modified values. Variants: MixinFilter alone, between two recording mixins, on EventQueue, MixinHeterFilter on HeterEventDispatcher; canContinueInvoking reading a flag in a by-reference argument while a second, tracked argument is taken by value by the prototype, the listeners and the policy itself (CallbackList and EventDispatcher; a moved-from value is visible to the next listener); conditionalFunctor and argumentAdapter (value and shared_ptr flavours).',
         'Trusted: the filter model. With lvalue arguments a heterogeneous dispatcher forwards references to the caller\'s own objects, so that variant dispatches temporaries only.',
@@ -99,22 +99,22 @@ PROPS = {
         'Seeded search over histories that mix nine callback shapes (callable with exactly one prototype, with several, variadic), eight argument shapes (exact, convertible to one or several prototypes) and seven predicate shapes. The expected prototype of every shape is tabulated by hand ("first listed prototype it can be called with"). Checked: which callbacks run, in which order, with which (converted) argument values; queue FIFO across prototypes for process/processOne; processIf asks its predicate about exactly the queued events of its prototype and leaves every other event untouched and in place; payload integrity (pattern-filled 180-byte payload, tracked small payload, strings).',
         'Trusted: the hand-made prototype tables. For a predicate callable with several prototypes the oracle requires only exactly-once consumption with intact arguments (the statement leaves the rest open; a declining predicate legitimately lets later events overtake earlier ones). Harness types have explicit constructors so that no accidental conversion changes prototype selection.',
         'Each evaluation is one seeded history of 10-45 operations on one of the three heterogeneous classes (default and SingleThreading policies; one variant uses ArgumentPassingIncludeEvent with a std::string event supplied as lvalue, temporary and moved local), executed by a g++ build and a clang++ build (their evaluation order and implicit-move rules differ). Non-trivial = contains an invocation / dispatch / processing call; distinct = distinct plan hashes.'),
-    'C15': seq_prop('seq_remover', [st('c15', 'seq_remover', 'c15', 300000, 6000000)],
+    'C15': seq_prop('seq_remover', [st('c15', 'seq_remover', 'c15', 1000000, 8000000)],
         'seeded ScopedRemover lifecycle histories (add/remove through removers, reset, re-target, move construction, move assignment into empty and non-empty removers, swap, destruction in any order) against a responsibility model; attached set observed by enumeration after every step',
         'Seeded search over histories with up to 3 removers and 2 targets (CallbackList, EventDispatcher, EventQueue). The model tracks which remover is responsible for which listener; what a move assignment displaces from its destination enters a limbo set (accepted attached or detached, once seen detached it must stay so, and must be detached when the last remover involved is destroyed) - exactly the window the statement gives.',
         'Trusted: the responsibility model. Self-move-assignment is not generated; adding through a remover without a target (a null dereference by contract) is not generated.',
         'Each evaluation is one seeded history of 10-40 operations. Non-trivial = a listener is added through a remover; distinct = distinct plan hashes.'),
-    'C16': seq_prop('seq_remover', [st('c16', 'seq_remover', 'c16', 300000, 6000000)],
+    'C16': seq_prop('seq_remover', [st('c16', 'seq_remover', 'c16', 1000000, 8000000)],
         'seeded trigger histories for CounterRemover / ConditionalRemover incl. re-entrant triggers from the wrapped listener, queued triggers and direct removals, in lockstep with a counting model (snapshot semantics for the listener lists)',
         'Seeded search over histories with counts n in [-3,5], condition outcome sequences as bit patterns, conditions with and without the trigger argument that keep their own evaluation count inside the callable (the stored condition object itself must be the one evaluated on every trigger), plain listeners before/after, direct and queued triggers, re-entrant triggers of the same key from inside the wrapped listener, and direct removals, on CallbackList, EventDispatcher, EventQueue and HeterEventDispatcher. The helper objects are temporaries destroyed before the first trigger. Every listener call and every condition evaluation is checked when it happens.',
         'Trusted: the counting model. Wrapped listeners cannot be identified by enumeration, so attachment is observed through triggers (two closing trigger rounds per list).',
         'Each evaluation is one seeded history of 10-40 operations. Non-trivial = a listener is added through CounterRemover or ConditionalRemover; distinct = distinct plan hashes.'),
-    'C17': seq_prop('seq_anydata', [st('c17', 'seq_anydata', 'c17', 300000, 6000000), st('c17-faults', 'seq_anydata', 'c09', 20000, 400000)],
+    'C17': seq_prop('seq_anydata', [st('c17', 'seq_anydata', 'c17', 2000000, 20000000), st('c17-faults', 'seq_anydata', 'c09', 60000, 600000)],
         'seeded move-chain / read / EventQueue round-trip histories over a compile-time sweep of AnyData capacities and stored types, ledger-tracked; the second stage re-runs the histories with the k-th allocation / copy / move throwing',
         'Compile-time sweep: AnyData<N> for N in {1, 8, 16, 24, 64} (capacities 16, 16, 16, 24, 64) x 56 stored types: trivial byte arrays of 22 sizes from 1 to 200 bytes (every capacity, capacity + 1 and capacity + 2 among them), tracked non-trivial, move-only and shared-ownership types of 6-10 sizes each, and a trivially destructible but self-referential type (it stores its own address and its move constructor marks the source) in 8 sizes around the capacities, so that a byte-wise relocation instead of a move is visible. Per history: construction from lvalue and rvalue, chains of move constructions over 4 slots, reads through get / reference / pointer / getAddress (must agree and be stable), isType for the stored type and for a different type of the same size and kind, queue round trips (enqueue, process / processOne) with the listener reading the value, destruction in any order; inline-vs-heap placement is checked against the capacity; no copy construction of the held object may happen while an AnyData is moved or enqueued as an rvalue; the ledger demands exactly one destruction per instance and nothing alive at the end.',
         'Trusted: the ledger. Bound: stored types with alignment <= alignof(void*). takeEvent cannot be instantiated for AnyData arguments (AnyData deletes move assignment), so queue round trips use process / processOne.',
         'Each evaluation is one seeded history of 6-25 operations on one (N, stored type) pair. Non-trivial = contains a move construction or a queue round trip; distinct = distinct plan hashes.'),
-    'C19': seq_prop('seq_list', [st('c19', 'seq_list', 'c19', 300000, 6000000)],
+    'C19': seq_prop('seq_list', [st('c19', 'seq_list', 'c19', 600000, 6000000)],
         'seeded histories with a generation-clock jump fault (guarded accessor) placed anywhere, including inside nested invocations; lockstep snapshot model with the statement\'s own relaxation for invocations in progress at the wrap',
         'The wrap of the 32-bit generation counter is injected as a forward clock jump on the list\'s logical clock (k = 0..6 additions before the maximum) at seeded points of re-entrant copy/move/swap histories. The harness learns the wrap moment by observation; only invocations in progress at that moment get the statement\'s relaxation, every later invocation is held to the strict model.',
         'Trusted: the accessor added under EVENTPP_VERIF sets the counter consistently (forward only, every existing generation stays <= the counter).',
@@ -131,7 +131,7 @@ PROPS = {
         'Seeded search over single-threaded histories of enqueue (three argument forms, caller lvalues mutated afterwards), process, processOne, processIf, processUntil (mask predicates, predicates without arguments, predicates and listeners carrying scripts), peekEvent, takeEvent (+dispatch), clearEvents, emptyQueue and listener changes. Every listener and predicate call the real code makes is compared, when it happens, with the reference queue model; contents and the front event are compared after every step.',
         'Trusted: the reference queue model and the ledger. Instantiations: const-reference and by-value prototypes, a move-only payload, SingleThreading / MultipleThreading / SimMutex in one task.',
         'Each evaluation is one seeded history of 10-40 top-level operations (plus up to 19 operations from scripts) on an EventQueue. Non-trivial = the history contains a processing call; distinct = distinct plan hashes.'),
-    'C13': seq_prop('seq_queue', [st('c13', 'seq_queue', 'c13', 300000, 6000000)],
+    'C13': seq_prop('seq_queue', [st('c13', 'seq_queue', 'c13', 600000, 6000000)],
         'the C05 histories with QueueList = OrderedQueueList (ascending, descending and payload-field comparators) against a stably sorted queue model',
         'Same generator and lockstep oracle as C05 with three comparators and keys drawn from three values so that ties are the norm; the model keeps the pending list stably sorted and merges put-back and newly enqueued events with a stable sort.',
         'Trusted: the ordered reference model (std::stable_sort).',
